@@ -90,10 +90,11 @@ META = {
     "category": "proof",
     "text": ("Coq model of shell.Expand and shell.Fields on a word fragment (one-pass lexer, expand.Document escapes, wordFields "
              "state with splitAdd/flush/allowEmpty, FuncEnviron empty = unset, tilde = HOME), tied to the Go API on every run by "
-             "in-kernel evaluation on generated strings x environments incl. malformed ones; theorems: validity (error iff "
-             "unterminated ${, independent of the environment), plain text unchanged, unset variable gives no field / one empty "
-             "field when quoted; differential search of the API vs real bash 5.2 over a wider generator."),
-    "note": ("Partial: the equalities C25_expand / C25_fields against a separately written Spec are not proved; they are covered by the "
-             "bash search only. One divergence class pinned (brace expansion after $name)."),
+             "in-kernel evaluation on generated strings x environments incl. malformed ones; theorems C25_expand and C25_fields: the "
+             "model equals a separately written Spec (here-document text by recursive descent; argument words by marked characters "
+             "per POSIX 2.6 with empty = unset) for all environments and strings, plus validity (error iff unterminated ${, "
+             "independent of the environment); differential search of the API vs real bash 5.2 over a wider generator."),
+    "note": ("The fragment lexer is shared by model and Spec for Fields (its tie to syntax/parser.go is the code leg); forms outside "
+             "the fragment are covered by the bash search only. One divergence class pinned (brace expansion after $name)."),
     "design_ref": "DESIGN.md 4 C25",
 }
